@@ -101,6 +101,13 @@ func (s *CDCStreamer) CommitHook() bool {
 	return true
 }
 
+// RollbackHook is called when the transaction is rolled back. The changes the
+// pending events describe were undone, so the events are discarded. The index
+// the events would have been sent with is kept.
+func (s *CDCStreamer) RollbackHook() {
+	s.pending.Events = make([]*command.CDCEvent, 0)
+}
+
 // Len returns the number of pending events.
 func (s *CDCStreamer) Len() int {
 	return len(s.pending.Events)
